@@ -101,71 +101,69 @@ func (s *signer) established(fn *ssa.Function, v, other ssa.Value, k int64, pt p
 	}
 	fl := &boolFlow{fn: fn, entry: false}
 	fl.edge = func(blk *ssa.BasicBlock, i int) bool {
-		c, trueIdx, ok := ifCond(blk)
-		if !ok {
-			return false
-		}
-		cmp, ok := c.(*ssa.BinOp)
-		if !ok {
-			return false
-		}
-		x, y, op := cmp.X, cmp.Y, cmp.Op
-		flip := func() {
-			x, y = y, x
-			switch op {
-			case token.LSS:
-				op = token.GTR
-			case token.GTR:
-				op = token.LSS
-			case token.LEQ:
-				op = token.GEQ
-			case token.GEQ:
-				op = token.LEQ
+		return anyEdgeFact(blk, i, func(c ssa.Value, trueIdx int) bool {
+			cmp, ok := c.(*ssa.BinOp)
+			if !ok {
+				return false
 			}
-		}
-		if !sameValue(x, v) && sameValue(y, v) {
-			flip()
-		}
-		if !sameValue(x, v) {
-			return false
-		}
-		onTrue := i == trueIdx
-		// bound: x op y  gives  x >= y + d
-		var d int64
-		switch {
-		case op == token.GTR && onTrue, op == token.LEQ && !onTrue:
-			d = 1
-		case op == token.GEQ && onTrue, op == token.LSS && !onTrue, op == token.EQL && onTrue, op == token.NEQ && !onTrue:
-			d = 0
-		case (op == token.NEQ && onTrue || op == token.EQL && !onTrue) && other == nil && vNonNeg:
-			// v != 0 for a non-negative v: v >= 1
-			if c, ok := intConst(y); ok && c == 0 {
-				return 1 >= k
+			x, y, op := cmp.X, cmp.Y, cmp.Op
+			flip := func() {
+				x, y = y, x
+				switch op {
+				case token.LSS:
+					op = token.GTR
+				case token.GTR:
+					op = token.LSS
+				case token.LEQ:
+					op = token.GEQ
+				case token.GEQ:
+					op = token.LEQ
+				}
 			}
-			return false
-		default:
-			return false
-		}
-		if other == nil {
-			if c, ok := intConst(y); ok {
-				return c+d >= k
+			if !sameValue(x, v) && sameValue(y, v) {
+				flip()
 			}
-			// v >= y + d for a y that is a count: v >= d
-			if isCount(y) {
+			if !sameValue(x, v) {
+				return false
+			}
+			onTrue := i == trueIdx
+			// bound: x op y  gives  x >= y + d
+			var d int64
+			switch {
+			case op == token.GTR && onTrue, op == token.LEQ && !onTrue:
+				d = 1
+			case op == token.GEQ && onTrue, op == token.LSS && !onTrue, op == token.EQL && onTrue, op == token.NEQ && !onTrue:
+				d = 0
+			case (op == token.NEQ && onTrue || op == token.EQL && !onTrue) && other == nil && vNonNeg:
+				// v != 0 for a non-negative v: v >= 1
+				if c, ok := intConst(y); ok && c == 0 {
+					return 1 >= k
+				}
+				return false
+			default:
+				return false
+			}
+			if other == nil {
+				if c, ok := intConst(y); ok {
+					return c+d >= k
+				}
+				// v >= y + d for a y that is a count: v >= d
+				if isCount(y) {
+					return d >= k
+				}
+				return false
+			}
+			if sameValue(y, other) {
 				return d >= k
 			}
-			return false
-		}
-		if sameValue(y, other) {
-			return d >= k
-		}
-		// y = other + c
-		if bo, ok := y.(*ssa.BinOp); ok && bo.Op == token.ADD {
-			if c, ok := intConst(bo.Y); ok && sameValue(bo.X, other) {
-				return c+d >= k
+			// y = other + c
+			if bo, ok := y.(*ssa.BinOp); ok && bo.Op == token.ADD {
+				if c, ok := intConst(bo.Y); ok && sameValue(bo.X, other) {
+					return c+d >= k
+				}
 			}
-		}
-		return false
+			return false
+		})
 	}
 	fl.solve()
 	if pt.succ < 0 {
@@ -425,6 +423,40 @@ func (s *signer) geValue(a, b ssa.Value, k int64, pt point, q *signQuery, depth 
 	}
 	if s.established(pt.blk.Parent(), a, b, k, pt, false) {
 		return true
+	}
+	// two results of one call of a package function: the relation holds at every return of it
+	if ea, ok := a.(*ssa.Extract); ok {
+		if eb, ok := b.(*ssa.Extract); ok && ea.Tuple == eb.Tuple {
+			if c, ok := ea.Tuple.(*ssa.Call); ok {
+				if g := c.Call.StaticCallee(); g != nil && g.Pkg != nil && g.Pkg.Pkg.Path() == twigPath && len(g.Blocks) > 0 && depth < 4 {
+					all, n := true, 0
+					instrsOf(g, func(in ssa.Instruction) {
+						ret, isRet := in.(*ssa.Return)
+						if !isRet || !all {
+							return
+						}
+						res := retResults(ret)
+						if ea.Index >= len(res) || eb.Index >= len(res) {
+							all = false
+							return
+						}
+						n++
+						ra, rb := res[ea.Index], res[eb.Index]
+						if ca, ok := intConst(ra); ok {
+							if cb, ok := intConst(rb); ok && ca >= cb+k {
+								return
+							}
+						}
+						if !s.geValue(ra, rb, k, point{ret.Block(), -1}, &signQuery{seen: map[ssa.Value]bool{}, depth: q.depth + 1}, depth+1) {
+							all = false
+						}
+					})
+					if all && n > 0 {
+						return true
+					}
+				}
+			}
+		}
 	}
 	switch x := a.(type) {
 	case *ssa.Phi:
@@ -710,38 +742,36 @@ func (s *signer) lenAtLeast(fn *ssa.Function, x ssa.Value, n int64, at *ssa.Basi
 	fl := &boolFlow{fn: fn, entry: false}
 	var lenVal ssa.Value
 	fl.edge = func(blk *ssa.BasicBlock, i int) bool {
-		c, trueIdx, ok := ifCond(blk)
-		if !ok {
-			return false
-		}
-		onTrue := i == trueIdx
-		switch cv := c.(type) {
-		case *ssa.Call:
-			if f := calleeFunc(cv); f != nil && onTrue {
-				switch f.FullName() {
-				case "strings.HasPrefix", "strings.HasSuffix", "bytes.HasPrefix", "bytes.HasSuffix":
-					if sameValue(cv.Call.Args[0], x) {
-						if p, ok := constString(cv.Call.Args[1]); ok && int64(len(p)) >= n {
-							return true
-						}
-					}
-				}
-			}
-		case *ssa.BinOp:
-			// x != ""  /  x == ""
-			if n <= 1 {
-				for _, pr := range [][2]ssa.Value{{cv.X, cv.Y}, {cv.Y, cv.X}} {
-					if sameValue(pr[0], x) {
-						if str, ok := constString(pr[1]); ok && str == "" {
-							if (cv.Op == token.NEQ && onTrue) || (cv.Op == token.EQL && !onTrue) {
+		return anyEdgeFact(blk, i, func(c ssa.Value, trueIdx int) bool {
+			onTrue := i == trueIdx
+			switch cv := c.(type) {
+			case *ssa.Call:
+				if f := calleeFunc(cv); f != nil && onTrue {
+					switch f.FullName() {
+					case "strings.HasPrefix", "strings.HasSuffix", "bytes.HasPrefix", "bytes.HasSuffix":
+						if sameValue(cv.Call.Args[0], x) {
+							if p, ok := constString(cv.Call.Args[1]); ok && int64(len(p)) >= n {
 								return true
 							}
 						}
 					}
 				}
+			case *ssa.BinOp:
+				// x != ""  /  x == ""
+				if n <= 1 {
+					for _, pr := range [][2]ssa.Value{{cv.X, cv.Y}, {cv.Y, cv.X}} {
+						if sameValue(pr[0], x) {
+							if str, ok := constString(pr[1]); ok && str == "" {
+								if (cv.Op == token.NEQ && onTrue) || (cv.Op == token.EQL && !onTrue) {
+									return true
+								}
+							}
+						}
+					}
+				}
 			}
-		}
-		return false
+			return false
+		})
 	}
 	_ = lenVal
 	fl.solve()
@@ -754,20 +784,21 @@ func (s *signer) lenAtLeast(fn *ssa.Function, x ssa.Value, n int64, at *ssa.Basi
 	holds := func(fname, lit string) bool {
 		f2 := &boolFlow{fn: fn, entry: false}
 		f2.edge = func(blk *ssa.BasicBlock, i int) bool {
-			c, trueIdx, ok := ifCond(blk)
-			if !ok || i != trueIdx {
-				return false
-			}
-			cv, ok := c.(*ssa.Call)
-			if !ok {
-				return false
-			}
-			f := calleeFunc(cv)
-			if f == nil || f.FullName() != fname || !sameValue(cv.Call.Args[0], x) {
-				return false
-			}
-			p, ok := constString(cv.Call.Args[1])
-			return ok && p == lit
+			return anyEdgeFact(blk, i, func(c ssa.Value, trueIdx int) bool {
+				if i != trueIdx {
+					return false
+				}
+				cv, ok := c.(*ssa.Call)
+				if !ok {
+					return false
+				}
+				f := calleeFunc(cv)
+				if f == nil || f.FullName() != fname || !sameValue(cv.Call.Args[0], x) {
+					return false
+				}
+				p, ok := constString(cv.Call.Args[1])
+				return ok && p == lit
+			})
 		}
 		f2.solve()
 		return f2.in[at]
